@@ -190,6 +190,9 @@ func (w *World) do(st Step) bool {
 		}
 		return w.sim.mutate(st.N, st.A, st.K, v)
 	case "reset":
+		w.mu.Lock()
+		w.resetPats = append(w.resetPats, st.Res...)
+		w.mu.Unlock()
 		return w.systemEvent("reset", map[string]any{"resources": st.Res, "access": st.Acc},
 			Rec{"res": strs(st.Res), "acc": strs(st.Acc), "matchres": strs(w.sim.matching(st.Res)), "matchacc": strs(w.sim.matching(st.Acc))})
 	case "tokenreset":
